@@ -463,6 +463,13 @@ def write_replay(ctx, name, payload):
     return p
 
 
+def evidence_path(ctx):
+    """where this run's evidence lives: evidence/<pid>.json for /repo, a private file for scratch worktrees"""
+    if ctx.repo != "/repo":
+        return os.path.join(ctx.work, "evidence.json")
+    return os.path.join(VERIF, "evidence", ctx.pid + ".json")
+
+
 def write_evidence(ctx, spec, cov, assumptions, violations):
     ev = {"property_id": ctx.pid, "tier": ctx.tier, "seed": ctx.seed, "level": "proof",
           "coverage": cov, "assumptions": assumptions, "wall_s": round(time.time() - ctx.t0, 2),
